@@ -392,6 +392,15 @@ func c16Pairs(c *Ctx, pr *PropertyRun, prop string, keep func(what string) bool)
 				detail += "; the decoder transforms its input before " + pa.decCall
 			}
 		}
+		// ... and hands on what the inverse primitive returned as it is: a
+		// second decoding step applied to the result (unescaping a parsed
+		// path once more) reads texts the encoder wrote as another value
+		if ok && du != nil {
+			if w := decoderOutputAltered(du.site); w != "" {
+				ok = false
+				detail += "; the decoder alters the result of " + pa.decCall + " (" + w + ")"
+			}
+		}
 		r.Ob(ok)
 		r.Sample(map[string]interface{}{"primitive": pa.what, "encoder": pa.enc + " -> " + pa.encCall, "decoder": pa.dec + " -> " + pa.decCall, "constants": detail, "ok": ok})
 		if !ok {
@@ -515,6 +524,71 @@ func decoderInputUnaltered(dec *ssa.Function, site ssa.CallInstruction) bool {
 		}
 	}
 	return false
+}
+
+// decoderOutputAltered: the object the inverse primitive returned (a pointer
+// result, e.g. *url.URL) has one of its fields stored to before it is handed
+// on. Returns a description of the store, "" if there is none.
+func decoderOutputAltered(site ssa.CallInstruction) string {
+	v := site.Value()
+	if v == nil {
+		return ""
+	}
+	var roots []ssa.Value
+	if _, ok := v.Type().(*types.Tuple); ok {
+		for _, ref := range refsOf(v) {
+			if ex, ok := ref.(*ssa.Extract); ok {
+				roots = append(roots, ex)
+			}
+		}
+	} else {
+		roots = append(roots, v)
+	}
+	for _, root := range roots {
+		if _, ok := root.Type().Underlying().(*types.Pointer); !ok {
+			continue
+		}
+		seen := map[ssa.Value]bool{}
+		var walk func(v ssa.Value, depth int) string
+		walk = func(v ssa.Value, depth int) string {
+			if depth == 0 || seen[v] {
+				return ""
+			}
+			seen[v] = true
+			for _, ref := range refsOf(v) {
+				switch x := ref.(type) {
+				case *ssa.FieldAddr:
+					if x.X != v {
+						continue
+					}
+					for _, r2 := range refsOf(x) {
+						if st, ok := r2.(*ssa.Store); ok && st.Addr == x {
+							name := "?"
+							if pt, ok := x.X.Type().Underlying().(*types.Pointer); ok {
+								if stt, ok := pt.Elem().Underlying().(*types.Struct); ok {
+									name = stt.Field(x.Field).Name()
+								}
+							}
+							return "store to its field " + name
+						}
+					}
+				case *ssa.ChangeType:
+					if w := walk(x, depth-1); w != "" {
+						return w
+					}
+				case *ssa.Phi:
+					if w := walk(x, depth-1); w != "" {
+						return w
+					}
+				}
+			}
+			return ""
+		}
+		if w := walk(root, 4); w != "" {
+			return w
+		}
+	}
+	return ""
 }
 
 // flowsIntoCall: v (or a phi/convert of it) is an argument of a call of name.
